@@ -228,6 +228,7 @@ pub fn c07(tier: &str) -> i32 {
         let prefix = vec![Op::Auto(Stmt::CreateTable(t_plain())), Op::Auto(ins("t", &[(1, 10)]))];
         let alpha = vec![
             Op::Auto(Stmt::CreateUniqueIndex { name: "ix".into(), table: "t".into(), cols: vec!["k".into()] }),
+            Op::Auto(Stmt::AddUnique { table: "t".into(), name: "uq".into(), cols: vec!["k".into()] }),
             Op::Auto(ins("t", &[(1, 11)])),
             Op::Auto(ins("t", &[(2, 20)])),
             Op::Auto(del("t", 1)),
@@ -542,6 +543,25 @@ pub fn c09(tier: &str) -> i32 {
             Op::Reopen,
         ];
         searches.push(mk_search("C09", "seed: non-empty free list (created + dropped table with an overflow row); re-create, use, reopen", Cfg::default(), prefix, alpha, if quick { 4 } else { 6 }, if quick { 50_000 } else { 2_000_000 }, |p| {
+            p.reopen_end = true;
+        }));
+    }
+    {
+        // from the EMPTY database: no live relation exists while DDL is rolled back, VACUUM runs and the file is reopened
+        let alpha = vec![
+            Op::Begin(1),
+            Op::In(1, Stmt::CreateTable(t2_def())),
+            Op::In(1, ins_t2(1, "x")),
+            Op::Rollback(1),
+            Op::Commit(1),
+            Op::Auto(Stmt::CreateTable(t2_def())),
+            Op::Auto(Stmt::DropTable("t2".into())),
+            Op::Auto(ins_t2(2, "y")),
+            Op::Auto(Stmt::Select { table: "t2".into(), pred: None }),
+            Op::Vacuum,
+            Op::Reopen,
+        ];
+        searches.push(mk_search("C09", "from the empty database: rolled-back and committed CREATE TABLE, drop, VACUUM with and without a live relation, reopen", Cfg::default(), vec![], alpha, if quick { 6 } else { 8 }, if quick { 60_000 } else { 3_000_000 }, |p| {
             p.reopen_end = true;
         }));
     }
